@@ -4,6 +4,7 @@ package xds
 // completion: nothing sent on the channel is lost, Forced survives, debounced pushes never overlap.
 
 import (
+	"math/rand"
 	"time"
 
 	"go.uber.org/atomic"
@@ -14,12 +15,23 @@ import (
 	vp "istio.io/istio/pkg/zzvp"
 )
 
-func verifDebounceRun(n int, twin bool) {
+// verifPause lets an arbitrary amount of time pass: in the engine the goroutine blocks on a timer that may fire at any
+// later instant (every order against the other timers and goroutines, no pre-emption consumed); natively it sleeps for a
+// random time in the range of the debounce constants, so that the native confirmation searches the same schedules.
+func verifPause() {
+	if vp.Symbolic() {
+		<-time.After(0)
+		return
+	}
+	time.Sleep(time.Duration(rand.Intn(300)) * time.Millisecond)
+}
+
+func verifDebounceRun(n int, twin, timed bool) {
 	ch := make(chan *model.PushRequest, 10)
 	stop := make(chan struct{})
 	done := make(chan struct{})
 	var sent atomic.Int64
-	opts := DebounceOptions{DebounceAfter: 100 * time.Millisecond, debounceMax: time.Second, enableEDSDebounce: vp.Choice("edsDebounce", 2) == 1}
+	opts := DebounceOptions{DebounceAfter: 100 * time.Millisecond, debounceMax: time.Second, enableEDSDebounce: timed || vp.Choice("edsDebounce", 2) == 1}
 
 	keys := make([]model.ConfigKey, n)
 	forced := make([]bool, n)
@@ -34,7 +46,11 @@ func verifDebounceRun(n int, twin bool) {
 			debouncedInFlight++
 			vp.Assert(debouncedInFlight == 1, "debounced-pushes-never-overlap")
 		}
-		vp.Yield() // the push takes time
+		if timed {
+			verifPause() // the push takes an arbitrary time
+		} else {
+			vp.Yield() // the push takes time
+		}
 		for k := range r.ConfigsUpdated {
 			pushedKeys.Insert(k)
 		}
@@ -57,12 +73,18 @@ func verifDebounceRun(n int, twin bool) {
 	anyForced := false
 	for i := 0; i < n; i++ {
 		p := vp.Name("req", i)
-		k := []kind.Kind{kind.ServiceEntry, kind.Endpoints}[vp.Choice(p+".kind", 2)]
+		k := kind.ServiceEntry
+		if !timed {
+			k = []kind.Kind{kind.ServiceEntry, kind.Endpoints}[vp.Choice(p+".kind", 2)]
+		}
 		keys[i] = model.ConfigKey{Kind: k, Name: vp.Name("cfg", i), Namespace: "ns"}
 		forced[i] = vp.Bool(p + ".forced")
 		anyForced = vp.Or(anyForced, forced[i])
 		ch <- &model.PushRequest{ConfigsUpdated: sets.New(keys[i]), Forced: forced[i], Reason: model.NewReasonStats(model.ConfigUpdate)}
 		vp.Reach("sent")
+		if timed {
+			verifPause() // updates arrive at arbitrary instants
+		}
 	}
 	// quiescence: the main goroutine blocks; senders are done, timers and pushes run in every order.
 	// A lost update leaves every goroutine asleep with nothing armed: reported as a deadlock.
@@ -77,7 +99,12 @@ func verifDebounceRun(n int, twin bool) {
 	close(stop)
 }
 
-func VerifC02Debounce() { verifDebounceRun(2+vp.Tier(), false) }
+func VerifC02Debounce() { verifDebounceRun(2+vp.Tier(), false, false) }
+
+// The same with time made explicit: updates arrive after arbitrary pauses and a push lasts an arbitrary time, so every
+// order of arrivals, debounce-timer expiries and push completions is explored (three updates: one whose push is in
+// flight, two that arrive meanwhile).
+func VerifC02DebounceTimed() { verifDebounceRun(3, false, true) }
 
 // Mutant twin: "Forced never reaches a push" must be refuted.
-func VerifC02DebounceTwin() { verifDebounceRun(1, true) }
+func VerifC02DebounceTwin() { verifDebounceRun(1, true, false) }
